@@ -52,6 +52,13 @@ TRUSTED = ["CPython list/array.array item and slice assignment and tuple-assignm
            "random.randint/randrange/choice/sample return values inside their documented ranges (the guards `…Ok`; the "
            "model rejects any other draw)",
            "IEEE comparison random() < indpb is replayed in Lean Float (same operation)",
+           "translator tie: harness/py2lean_c09.py (its docstring = the accepted Python sub-language and the rendering of every "
+           "construct: object cells with aliasing, copy semantics of list slices, CPython's tuple-assignment order, state passing, "
+           "the two-channel tape of the …R models) with lean/DeapModel/Core/GenPrelude.lean + GenPreludeC09.lean (slice bound "
+           "adjustment, negative indices, item / slice assignment, randint/randrange/sample2/random on the tape, the for loop as a "
+           "fold in Option) renders the operators' source faithfully and refuses what it does not list; the signature table of "
+           "harness/props/c09_translate.py (individuals are lists of opaque genes / of ints, distinct objects; numpy views are "
+           "outside the rendering and stay with the Buffer model + correspondence)",
            "in place / identity (returned objects ARE the arguments, strategy objects are kept, no name is rebound to a "
            "copy) is established on the real objects by `is` on every explored case; the Lean statements in_place1/2/_es "
            "only fix the model's convention and hold for any operator"]
@@ -95,6 +102,28 @@ EXPLANATION = ("Representation is explicit: Core/Buffer.lean models sequence obj
 # ------------------------------------------------------------------------------------------------
 # value tape (kind-agnostic)
 # ------------------------------------------------------------------------------------------------
+def translate(repo):
+    """translator tie (lib._translated_obligations): Lean definitions regenerated from `repo`'s current source by
+    harness/py2lean_c09.py + the committed theorems `Gen.<f> = CrossMut.<f>` (under the …Ok guard, with the rest of the
+    tape; `none` outside) of lean/DeapModel/GenEq/C09.lean.tmpl"""
+    from props import c09_translate
+    import json
+    import os
+    import lib
+    tr = c09_translate.translate(repo)
+    try:
+        os.makedirs(os.path.join(lib.OUT, "evidence"), exist_ok=True)
+        with open(os.path.join(lib.OUT, "evidence", "C09.translated.json"), "w") as fh:
+            json.dump({"definitions": len(tr["definitions"]), "theorems": len(tr["theorems"]),
+                       "refused": len(tr["refused"]), "problems": tr["problems"],
+                       "functions": [dict(file=f, name=n, status=st, detail=d) for f, n, st, d in tr["table"]],
+                       "theorem_names": tr["theorems"]}, fh, indent=1)
+            fh.write("\n")
+    except (OSError, AttributeError):
+        pass
+    return tr
+
+
 def _is_int(x):
     return isinstance(x, (int, numpy.integer)) and not isinstance(x, (bool, numpy.bool_))
 
